@@ -173,7 +173,12 @@ def _drive(sim, kind, kern, r, now, patt, protos, sf, cf, closing, closer, half,
         written[side] += n
         if seq and n >= 3:
             a, b = n // 3, 2 * n // 3
-            p.transport.writeSequence([data[:a], data[a:b], b"", data[b:]])
+            parts = [data[:a], data[a:b], b"", data[b:]]
+            # any iterable of bytes is a legal argument
+            kind = sim.draw_choice(["list", "tuple", "generator"], "iovec")
+            if kind == "generator":
+                sim.probe("writeSequence_one_shot_iterable")
+            p.transport.writeSequence(parts if kind == "list" else tuple(parts) if kind == "tuple" else (x for x in parts))
         else:
             p.transport.write(data)
 
